@@ -1,5 +1,6 @@
 import PSO.Model.NodeSend
 import PSO.Proofs.NodeSendBasic
+import PSO.Proofs.NodeSendBatches
 
 /-! # Node-local membership theorems (C10): gate, member set = fold of the log, adjacent majorities
 
@@ -709,47 +710,534 @@ again provided the dump's cluster is the configuration at its last entry.) -/
 theorem members_eq_fold_restore {s s' : Node} {o : List Out} (prevE lastE : Entry) (cluster : List Nat)
     (h : restoreSnapshot s prevE lastE cluster true = .ok (s', o)) :
     s'.log = [prevE, lastE] ∧ s'.members.Nodup ∧
-    (∀ x, x ∈ s'.members ↔ (x ∈ cluster ∧ s.self ≠ some x)) := by
+    (∀ x, x ∈ s'.members ↔ (x ∈ cluster ∧ s.self ≠ some x)) ∧ s'.self = s.self := by
   unfold restoreSnapshot at h
   simp only [if_true] at h
   unfold updateClusterConfiguration at h
   simp only [lastIdx?, List.getLast?_cons_cons, List.getLast?_singleton, Option.map_some] at h
   cases h
-  refine ⟨rfl, nodup_eraseDups _, ?_⟩
+  refine ⟨rfl, nodup_eraseDups _, ?_, rfl⟩
   intro x
   simp [List.mem_eraseDups, List.mem_filter]
 
-/-- **D6 (recorded finding): re-application at commit time breaks the equation.**  Follower 0 of {0,1,2} holds
-`add 3`@2 and `rem 3`@3 (both took effect when appended: members {1,2}); committing entry 2 re-applies `add 3`:
-the member list contains 3 although the fold of the log does not. -/
-theorem reapply_at_commit_counterexample :
-    let e2 : Entry := ⟨⟨.add 3, 1, 80, 56⟩, 2, 1⟩
-    let e3 : Entry := ⟨⟨.rem 3, 2, 80, 56⟩, 3, 1⟩
-    let s : Node := { self := some 0, members := [1, 2], log := [⟨⟨.noop, 0, 1, 54⟩, 1, 0⟩, e2, e3] }
-    foldConfig s.self [1, 2] s.log = [1, 2] ∧
-    (∃ s' o, reapplyAtCommit s e2 = .ok (s', o) ∧ s'.members = [1, 2, 3] ∧ s'.log = s.log) := by
-  refine ⟨by decide, ?_⟩
-  exact ⟨_, _, rfl, by decide, rfl⟩
+/-! ## applying a membership entry (repair D6) -/
 
-/-- … and it is harmless when the re-applied entry does not change the member list (the normal case: the entry
-already took effect when it was appended and nothing later reversed it). -/
-theorem reapply_at_commit_partial {base : List Nat} {s s' : Node} {o : List Out} {e : Entry}
-    (hinv : MInv base s) (h : reapplyAtCommit s e = .ok (s', o))
-    (hnochange : (memStep s.self s.members e.cmd.kind false).2 = false) : MInv base s' := by
-  unfold reapplyAtCommit at h
-  split at h
-  · cases h; exact hinv
-  · rename_i k hk
-    have := parseChange_some hk
-    subst this
-    split at h
-    · simp at h
-    · rename_i s1 ch o1 hd
-      cases h
-      have hs := doChange_spec hd
-      have hch : ch = false := by rw [hs.2.1]; exact hnochange
-      have hm := (hs.2.2.2.2.2.2.2.2.2.2.2.2.2.2 hch).2
-      exact ⟨by rw [hs.2.2.2.1]; exact hinv.base_good, by rw [hs.2.2.2.1, hm]; exact hinv.good,
-             by rw [hs.2.2.2.1, hm, hs.2.2.1]; exact hinv.eq, by rw [hs.2.2.2.1, hs.2.2.1]; exact hinv.eff⟩
+/-- **Applying (committing) a membership entry leaves the node alone**: no member-set change, no transport call. -/
+theorem apply_membership_entry_no_effect (s : Node) (e : Entry) : reapplyAtCommit s e = .ok (s, []) := rfl
+
+/-! ## last operation wins: the journal fold at start-up is idempotent -/
+
+/-- what an entry does to node `x`: `some true` = adds it, `some false` = removes it -/
+def opOn (x : Nat) (k : Kind) : Option Bool :=
+  match k with
+  | .add n => if n = x then some true else none
+  | .rem n => if n = x then some false else none
+  | _ => none
+
+/-- the last operation on `x` in a list of entries -/
+def lastOp (x : Nat) : List Entry → Option Bool
+  | [] => none
+  | e :: r => match lastOp x r with
+    | some b => some b
+    | none => opOn x e.cmd.kind
+
+theorem lastOp_append (x : Nat) (l1 l2 : List Entry) :
+    lastOp x (l1 ++ l2) = match lastOp x l2 with | some b => some b | none => lastOp x l1 := by
+  induction l1 with
+  | nil => simp [lastOp]; cases lastOp x l2 <;> rfl
+  | cons e r ih =>
+    simp only [List.cons_append, lastOp, ih]
+    cases lastOp x l2 with
+    | some b => rfl
+    | none => rfl
+
+theorem mem_memStep_iff {self : Option Nat} {m : List Nat} (hm : Good self m) (k : Kind) (x : Nat) :
+    x ∈ (memStep self m k false).1 ↔
+      match opOn x k with
+      | some true => self ≠ some x
+      | some false => False
+      | none => x ∈ m := by
+  cases k with
+  | noop => simp [memStep, changeDir, opOn]
+  | regular => simp [memStep, changeDir, opOn]
+  | version => simp [memStep, changeDir, opOn]
+  | memOther => simp [memStep, changeDir, opOn]
+  | add n =>
+    simp only [memStep, changeDir, opOn, Bool.not_false]
+    by_cases hn : n = x
+    · subst hn
+      simp only [if_true]
+      by_cases hc : self = some n ∨ n ∈ m
+      · simp only [hc, if_true]
+        rcases hc with hc | hc
+        · simp [hc]; exact hm.noself n hc
+        · simp [hc]; intro hs; exact hm.noself n hs hc
+      · simp only [hc, if_false]
+        simp
+        exact fun hs => hc (Or.inl hs)
+    · simp only [hn, if_false]
+      by_cases hc : self = some n ∨ n ∈ m
+      · simp [hc]
+      · simp only [hc, if_false, List.mem_append, List.mem_singleton]
+        constructor
+        · rintro (h | h)
+          · exact h
+          · exact absurd h.symm hn
+        · exact Or.inl
+  | rem n =>
+    simp only [memStep, changeDir, opOn]
+    by_cases hn : n = x
+    · subst hn
+      simp only [if_true]
+      by_cases hc : self = some n ∨ n ∉ m
+      · simp only [hc, if_true]
+        rcases hc with hc | hc
+        · simp; exact hm.noself n hc
+        · simpa using hc
+      · simp only [hc, if_false]
+        simp
+        intro h
+        exact ((hm.nodup.mem_erase_iff).mp h).1 rfl
+    · simp only [hn, if_false]
+      by_cases hc : self = some n ∨ n ∉ m
+      · simp [hc]
+      · simp only [hc, if_false]
+        rw [hm.nodup.mem_erase_iff]
+        constructor
+        · exact fun h => h.2
+        · exact fun h => ⟨fun hx => hn hx.symm, h⟩
+
+/-- **Last operation wins.**  Membership of `x` in the fold of a log over `m` is decided by the last entry that
+names `x` (an `add` puts it in unless it is the node itself, a `rem` takes it out), else by `m`. -/
+theorem mem_foldConfig_iff {self : Option Nat} (L : List Entry) :
+    ∀ {m : List Nat}, Good self m → ∀ x,
+      (x ∈ foldConfig self m L ↔
+        match lastOp x L with
+        | some true => self ≠ some x
+        | some false => False
+        | none => x ∈ m) := by
+  induction L with
+  | nil => intro m _ x; simp [foldConfig, lastOp]
+  | cons e r ih =>
+    intro m hm x
+    have h1 := ih (memStep_good e.cmd.kind false hm) x
+    have h2 := mem_memStep_iff hm e.cmd.kind x
+    simp only [foldConfig, List.foldl_cons] at h1 ⊢
+    rw [h1]
+    simp only [lastOp]
+    cases lastOp x r with
+    | some b => cases b <;> exact Iff.rfl
+    | none => exact h2
+
+/-- **The journal fold is idempotent.**  Folding the whole journal over a member list that already contains
+the effects of a prefix of it (the list the node was started with: the original list, the current list, the list
+restored from a dump …) gives the same set as folding it over the base. -/
+theorem journalfold_idempotent {self : Option Nat} {base : List Nat} (hb : Good self base) (pre post : List Entry) :
+    SetEq (foldConfig self (foldConfig self base pre) (pre ++ post)) (foldConfig self base (pre ++ post)) := by
+  intro x
+  rw [mem_foldConfig_iff (pre ++ post) (foldConfig_good pre hb) x, mem_foldConfig_iff (pre ++ post) hb x]
+  cases hl : lastOp x (pre ++ post) with
+  | some b => cases b <;> exact Iff.rfl
+  | none =>
+    simp only []
+    rw [lastOp_append] at hl
+    have hpre : lastOp x pre = none := by
+      cases hp : lastOp x post with
+      | some b => simp [hp] at hl
+      | none => simpa [hp] using hl
+    rw [mem_foldConfig_iff pre hb x, hpre]
+
+theorem MInv.congr {base : List Nat} {s s' : Node} (h : MInv base s) (h1 : s'.self = s.self)
+    (h2 : s'.members = s.members) (h3 : s'.log = s.log) : MInv base s' :=
+  ⟨by rw [h1]; exact h.base_good, by rw [h1, h2]; exact h.good, by rw [h1, h2, h3]; exact h.eq, by rw [h1, h3]; exact h.eff⟩
+
+/-- **Journal fold at start-up re-establishes `members = fold(log)`**: the node is started with a member list
+`m0` that contains the effects of a prefix `log[..k)` of its journal (k = 0: the original list), the journal's
+entries were effective from `base`; after the fold the member set is the fold of the whole journal over `base`. -/
+theorem journalFold_minv {base : List Nat} {s s' : Node} {o : List Out} {k : Nat}
+    (hb : Good s.self base) (hg : Good s.self s.members) (heff : Eff s.self base s.log)
+    (hm : SetEq s.members (foldConfig s.self base (s.log.take k)))
+    (h : journalFold true s = .ok (s', o)) : MInv base s' := by
+  unfold journalFold at h
+  simp only [if_true] at h
+  cases hl : s.log with
+  | nil => simp [hl] at h
+  | cons e0 t =>
+    simp only [hl] at h
+    rw [← hl] at h
+    have hs := applyChanges_spec s.log h
+    have hfold : s'.members = foldConfig s.self s.members s.log := hs.1
+    have hsplit : s.log = s.log.take k ++ s.log.drop k := (List.take_append_drop k s.log).symm
+    refine ⟨by rw [hs.2.2]; exact hb, by rw [hs.2.2, hfold]; exact foldConfig_good _ hg, ?_, by rw [hs.2.2, hs.2.1]; exact heff⟩
+    rw [hs.2.2, hs.2.1, hfold]
+    have h1 := foldConfig_congr s.log hg (foldConfig_good (s.log.take k) hb) hm
+    refine SetEq.trans h1 ?_
+    have h2 := journalfold_idempotent hb (s.log.take k) (s.log.drop k)
+    rw [← hsplit] at h2
+    exact h2
+
+/-! ## the cluster written into a dump (repair D63) -/
+
+/-- `c` is the member list `m` plus the node itself -/
+def WithSelf (self : Option Nat) (c m : List Nat) : Prop := ∀ x, x ∈ c ↔ x ∈ m ∨ self = some x
+
+theorem unStep_bwd {self : Option Nat} {c m : List Nat} (hm : Good self m) (hc : WithSelf self c m) (k : Kind) :
+    WithSelf self (unStep self c k) (memStep self m k true).1 := by
+  cases k with
+  | noop => simpa [unStep, memStep, changeDir] using hc
+  | regular => simpa [unStep, memStep, changeDir] using hc
+  | version => simpa [unStep, memStep, changeDir] using hc
+  | memOther => simpa [unStep, memStep, changeDir] using hc
+  | add n =>
+    by_cases hs : self = some n
+    · have h1 : unStep self c (.add n) = c := by simp [unStep, hs]
+      have h2 : (memStep self m (.add n) true).1 = m := by simp [memStep, changeDir, hs]
+      rw [h1, h2]; exact hc
+    · have h1 : unStep self c (.add n) = c.filter (fun x => x != n) := by simp [unStep, hs]
+      rw [h1]
+      by_cases hn : n ∈ m
+      · have h2 : (memStep self m (.add n) true).1 = m.erase n := by simp [memStep, changeDir, hs, hn]
+        rw [h2]
+        intro x
+        simp only [List.mem_filter, bne_iff_ne, ne_eq, hc x, hm.nodup.mem_erase_iff]
+        constructor
+        · rintro ⟨h | h, hx⟩
+          · exact Or.inl ⟨hx, h⟩
+          · exact Or.inr h
+        · rintro (⟨hx, h⟩ | h)
+          · exact ⟨Or.inl h, hx⟩
+          · exact ⟨Or.inr h, fun hx => hs (hx ▸ h)⟩
+      · have h2 : (memStep self m (.add n) true).1 = m := by simp [memStep, changeDir, hs, hn]
+        rw [h2]
+        intro x
+        simp only [List.mem_filter, bne_iff_ne, ne_eq, hc x]
+        constructor
+        · exact fun h => h.1
+        · rintro (h | h)
+          · exact ⟨Or.inl h, fun hx => hn (hx ▸ h)⟩
+          · exact ⟨Or.inr h, fun hx => hs (hx ▸ h)⟩
+  | rem n =>
+    by_cases hs : self = some n
+    · have h1 : unStep self c (.rem n) = c := by simp [unStep, hs]
+      have h2 : (memStep self m (.rem n) true).1 = m := by simp [memStep, changeDir, hs]
+      rw [h1, h2]; exact hc
+    · have hcn : c.contains n = true ↔ n ∈ m := by
+        rw [List.contains_iff_mem, hc n]
+        exact ⟨fun h => h.resolve_right hs, Or.inl⟩
+      by_cases hn : n ∈ m
+      · have hmem : n ∈ c := (hc n).mpr (Or.inl hn)
+        have h1 : unStep self c (.rem n) = c := by simp [unStep, hs, hmem]
+        have h2 : (memStep self m (.rem n) true).1 = m := by simp [memStep, changeDir, hs, hn]
+        rw [h1, h2]; exact hc
+      · have hcf : c.contains n = false := by
+          cases hb : c.contains n with
+          | false => rfl
+          | true => exact absurd (hcn.mp hb) hn
+        have hnm : n ∉ c := fun h => ((hc n).mp h).elim hn hs
+        have h1 : unStep self c (.rem n) = c ++ [n] := by simp [unStep, hs, hnm]
+        have h2 : (memStep self m (.rem n) true).1 = m ++ [n] := by simp [memStep, changeDir, hs, hn]
+        rw [h1, h2]
+        intro x
+        simp only [List.mem_append, List.mem_singleton, hc x]
+        constructor
+        · rintro ((h | h) | h)
+          · exact Or.inl (Or.inl h)
+          · exact Or.inr h
+          · exact Or.inl (Or.inr h)
+        · rintro ((h | h) | h)
+          · exact Or.inl (Or.inl h)
+          · exact Or.inr h
+          · exact Or.inl (Or.inr h)
+
+theorem unStep_foldl {self : Option Nat} (L : List Entry) :
+    ∀ {c m : List Nat}, Good self m → WithSelf self c m →
+      WithSelf self (L.foldl (fun c e => unStep self c e.cmd.kind) c) (L.foldl (bwd self) m) := by
+  induction L with
+  | nil => intro c m _ h; exact h
+  | cons e r ih =>
+    intro c m hm hc
+    exact ih (memStep_good _ _ hm) (unStep_bwd hm hc e.cmd.kind)
+
+/-- **The dump's cluster is the fold at its own position (repair D63).**  Under the membership invariant, for a
+log with contiguous indices and `lastApplied = first + p - 1` inside it, the cluster `__tryLogCompaction` writes
+into the dump is exactly the fold of the membership entries up to `lastApplied` (`log[..p)`) over the base, plus
+the node itself — whatever changes later entries (appended, possibly uncommitted) have made to `otherNodes`. -/
+theorem snapshot_cluster_is_fold_at_position {base : List Nat} {s : Node} {first p : Nat} (hinv : MInv base s)
+    (hne : s.log ≠ []) (hidx : IdxOK first s.log) (hla : s.lastApplied + 1 = first + p) :
+    ∃ c, clusterAt s.self s.members s.log s.lastApplied = some c ∧
+      ∀ x, x ∈ c ↔ x ∈ foldConfig s.self base (s.log.take p) ∨ s.self = some x := by
+  unfold clusterAt
+  rw [hla, getEntries_from hne hidx]
+  simp only []
+  refine ⟨_, rfl, ?_⟩
+  have hsplit : s.log = s.log.take p ++ s.log.drop p := (List.take_append_drop p s.log).symm
+  have h0 : WithSelf s.self (s.members ++ s.self.toList) s.members := by
+    intro x
+    cases hs : s.self <;> simp [eq_comm]
+  have h1 := unStep_foldl (self := s.self) (s.log.drop p).reverse hinv.good h0
+  have heff := hinv.eff
+  rw [hsplit, Eff_append] at heff
+  have heq := hinv.eq
+  rw [hsplit, foldConfig_append] at heq
+  have hr := rollback_restores (s.log.drop p) (foldConfig_good (s.log.take p) hinv.base_good) hinv.good heff.2 heq
+  intro x
+  rw [h1 x, hr x]
+
+/-! ## the follower's `append_entries` handler keeps `members = fold(log)` -/
+
+theorem faChunk_frame (s : Node) (m : AppendMsg) :
+    (faChunk s m).1.self = s.self ∧ (faChunk s m).1.members = s.members ∧ (faChunk s m).1.log = s.log := by
+  unfold faChunk
+  cases m.chunk with
+  | none => simp
+  | some c =>
+    obtain ⟨l, data⟩ := c
+    simp only []
+    cases recvChunk s.recvBuf l data with
+    | error e => simp
+    | ok r =>
+      obtain ⟨b, d⟩ := r
+      cases d with
+      | none => simp
+      | some bytes =>
+        simp only []
+        cases unpickleEntry bytes <;> simp
+
+theorem getEntries_split {log : List Entry} {pi : Nat} {p0 : Entry} {prest : List Entry}
+    (h : getEntries log (some pi) none none = some (p0 :: prest)) :
+    ∃ e0 t, log = e0 :: t ∧ ¬ pi < e0.idx ∧ log.drop (pi - e0.idx) = p0 :: prest := by
+  cases log with
+  | nil => simp [getEntries] at h
+  | cons e0 t =>
+    unfold getEntries at h
+    by_cases hlt : pi < e0.idx
+    · simp [hlt] at h
+    · simp only [hlt, if_false] at h
+      exact ⟨e0, t, rfl, hlt, by simpa using h⟩
+
+/-- where the handler cuts and what it appends: (kept prefix, deleted suffix, appended entries) -/
+def faPlan (log : List Entry) (prevIdx : Nat) (newEntries : List Entry) : Option (List Entry × List Entry × List Entry) :=
+  match log with
+  | [] => none
+  | e0 :: _ =>
+    match getEntries log (some prevIdx) none none with
+    | some (_ :: prest) =>
+      some (log.take (prevIdx - e0.idx + 1 + matchedCount prest newEntries),
+            prest.drop (matchedCount prest newEntries), newEntries.drop (matchedCount prest newEntries))
+    | _ => none
+
+theorem faMerge_minv {cfg : Conf} {base : List Nat} {s0 s' : Node} {src pi : Nat} {prest new : List Entry}
+    {o : List Out} {e0 p0 : Entry} {t : List Entry} (hdyn : cfg.dynMember = true) (hinv : MInv base s0)
+    (hlog : s0.log = e0 :: t) (hge : ¬ pi < e0.idx) (hdrop : s0.log.drop (pi - e0.idx) = p0 :: prest)
+    (heff : Eff s0.self (foldConfig s0.self base (s0.log.take (pi - e0.idx + 1 + matchedCount prest new)))
+      (new.drop (matchedCount prest new)))
+    (h : faMerge cfg s0 src pi prest new = (s', .ok o)) : MInv base s' := by
+  generalize hK : pi - e0.idx + 1 + matchedCount prest new = K at heff
+  have hold : prest.drop (matchedCount prest new) = s0.log.drop K := by
+    have h1 : s0.log.drop (pi - e0.idx + 1) = prest := by
+      have := congrArg (List.drop 1) hdrop
+      rw [List.drop_drop] at this
+      simpa using this
+    have h2 : prest.drop (matchedCount prest new) = (s0.log.drop (pi - e0.idx + 1)).drop (matchedCount prest new) := by
+      rw [h1]
+    rw [h2, List.drop_drop, ← hK]
+  have hsplit : s0.log = s0.log.take K ++ s0.log.drop K := (List.take_append_drop K s0.log).symm
+  unfold faMerge at h
+  simp only [hdyn, if_true] at h
+  rw [hold] at h
+  by_cases htr : s0.log.drop K ≠ [] ∧ new.drop (matchedCount prest new) ≠ []
+  · rw [if_pos htr] at h
+    cases hrb : applyChanges s0 true (s0.log.drop K).reverse with
+    | error e => simp [hrb] at h
+    | ok r1 =>
+      obtain ⟨s1, o1⟩ := r1
+      simp only [hrb] at h
+      have hs1 := applyChanges_spec _ hrb
+      have hdel : deleteFrom s1.log (pi + matchedCount prest new + 1) = some (s0.log.take K) := by
+        rw [hs1.2.1, hlog]
+        unfold deleteFrom
+        have : ¬ pi + matchedCount prest new + 1 < e0.idx := by omega
+        simp only [this, if_false]
+        congr 2
+        omega
+      simp only [hdel] at h
+      have hroll := members_eq_fold_rollback hinv hsplit hrb
+      cases hap : applyChanges { s1 with log := s0.log.take K ++ new.drop (matchedCount prest new) } false
+          (new.drop (matchedCount prest new)) with
+      | error e => simp [hap] at h
+      | ok r2 =>
+        obtain ⟨s3, o2⟩ := r2
+        simp [hap] at h
+        obtain ⟨h3, _⟩ := h
+        subst h3
+        have hs3 := applyChanges_spec _ hap
+        have happ := members_eq_fold_append (s := { s1 with log := s0.log.take K ++ new.drop (matchedCount prest new) })
+          (m0 := foldConfig s0.self base (s0.log.take K))
+          (by simpa [hroll.2.2] using foldConfig_good (s0.log.take K) hinv.base_good)
+          (by simpa [hroll.2.2] using hroll.1) hroll.2.1 hap
+        simp only [] at hs3 happ
+        have hself : s3.self = s0.self := by rw [hs3.2.2]; exact hroll.2.2
+        have heff0 := hinv.eff
+        rw [hsplit, Eff_append] at heff0
+        refine ⟨by rw [hself]; exact hinv.base_good, by rw [hself]; simpa [hroll.2.2] using happ.1, ?_, ?_⟩
+        · rw [hself, hs3.2.1, foldConfig_append]
+          simpa [hroll.2.2] using happ.2
+        · rw [hself, hs3.2.1, Eff_append]
+          exact ⟨heff0.1, heff⟩
+  · rw [if_neg htr] at h
+    simp only [] at h
+    cases hap : applyChanges { s0 with log := s0.log ++ new.drop (matchedCount prest new) } false
+        (new.drop (matchedCount prest new)) with
+    | error e => simp [hap] at h
+    | ok r2 =>
+      obtain ⟨s3, o2⟩ := r2
+      simp [hap] at h
+      obtain ⟨h3, _⟩ := h
+      subst h3
+      have hs3 := applyChanges_spec _ hap
+      simp only [] at hs3
+      by_cases hnew : new.drop (matchedCount prest new) = []
+      · rw [hnew] at hs3
+        exact hinv.congr hs3.2.2 (by simpa using hs3.1) (by simpa using hs3.2.1)
+      · have hold0 : s0.log.drop K = [] := by
+          apply Classical.byContradiction
+          intro hne
+          exact htr ⟨hne, hnew⟩
+        have hk : s0.log.take K = s0.log := by
+          have := hsplit
+          rw [hold0, List.append_nil] at this
+          exact this.symm
+        rw [hk] at heff
+        have happ := members_eq_fold_append (s := { s0 with log := s0.log ++ new.drop (matchedCount prest new) })
+          (m0 := foldConfig s0.self base s0.log) (foldConfig_good s0.log hinv.base_good) hinv.good hinv.eq hap
+        simp only [] at happ
+        refine ⟨by rw [hs3.2.2]; exact hinv.base_good, by rw [hs3.2.2]; exact happ.1, ?_, ?_⟩
+        · rw [hs3.2.2, hs3.2.1, foldConfig_append]; exact happ.2
+        · rw [hs3.2.2, hs3.2.1, Eff_append]; exact ⟨hinv.eff, heff⟩
+
+/-- the entries a message makes the handler append are effective where they are appended (true of every
+message built from a leader's log: `members_eq_fold_leader` keeps `Eff`) -/
+def MsgEff (base : List Nat) (s : Node) (m : AppendMsg) : Prop :=
+  ∀ es, (faChunk s m).2 = .ok (some es) → ∀ pi pt, m.prev = some (pi, pt) →
+    ∀ kept old new, faPlan s.log pi es = some (kept, old, new) → Eff s.self (foldConfig s.self base kept) new
+
+/-- **Follower append with conflict rollback keeps `members = fold(log)`.** -/
+theorem followerAppend_minv {cfg : Conf} {base : List Nat} {s s' : Node} {src : Nat} {m : AppendMsg} {o : List Out}
+    (hdyn : cfg.dynMember = true) (hinv : MInv base s) (hmsg : MsgEff base s m)
+    (h : followerAppend cfg s src m = (s', .ok o)) : MInv base s' := by
+  have hfr := faChunk_frame s m
+  unfold followerAppend at h
+  unfold MsgEff at hmsg
+  cases hc : faChunk s m with
+  | mk s0 rc =>
+    rw [hc] at hfr hmsg h
+    simp only [] at hfr hmsg
+    have hinv0 : MInv base s0 := hinv.congr hfr.1 hfr.2.1 hfr.2.2
+    cases rc with
+    | error e => simp at h
+    | ok r =>
+      cases r with
+      | none =>
+        simp only [] at h
+        cases hl : lastIdx? s0.log with
+        | none => simp [hl] at h
+        | some last => simp [hl] at h; rw [← h.1]; exact hinv0
+      | some es =>
+        simp only [] at h
+        cases hp : m.prev with
+        | none =>
+          simp only [hp, Option.map_none] at h
+          cases hlog : s0.log with
+          | nil => simp [hlog, getEntries] at h
+          | cons e0 t =>
+            simp only [hlog, getEntries] at h
+            rw [← hlog] at h
+            cases hl : lastIdx? s0.log with
+            | none => simp [hl] at h
+            | some last => simp [hl] at h; rw [← h.1]; exact hinv0
+        | some q =>
+          obtain ⟨pi, pt⟩ := q
+          simp only [hp, Option.map_some, Option.getD_some] at h
+          cases hget : getEntries s0.log (some pi) none none with
+          | none => simp [hget] at h
+          | some l =>
+            cases l with
+            | nil =>
+              simp only [hget] at h
+              cases hl : lastIdx? s0.log with
+              | none => simp [hl] at h
+              | some last => simp [hl] at h; rw [← h.1]; exact hinv0
+            | cons p0 prest =>
+              simp only [hget] at h
+              by_cases ht : p0.term ≠ pt
+              · rw [if_pos ht] at h
+                simp at h
+                rw [← h.1]; exact hinv0
+              · rw [if_neg ht] at h
+                obtain ⟨e0, t, hlog, hge, hdrop⟩ := getEntries_split hget
+                have hplan : faPlan s.log pi es = some (s0.log.take (pi - e0.idx + 1 + matchedCount prest es),
+                    prest.drop (matchedCount prest es), es.drop (matchedCount prest es)) := by
+                  rw [← hfr.2.2]
+                  unfold faPlan
+                  rw [hlog] at hget ⊢
+                  simp only [hget]
+                have heff := hmsg es rfl pi pt hp _ _ _ hplan
+                rw [← hfr.1] at heff
+                exact faMerge_minv hdyn hinv0 hlog hge hdrop heff h
+
+/-! ## every sequence of the modelled operations -/
+
+/-- states reachable by the modelled membership-relevant operations of one node, with the base configuration
+(the member set before the first entry of the log) as index -/
+inductive MReach (cfg : Conf) : List Nat → Node → Prop
+  /-- a state satisfying the invariant, e.g. a fresh node: `members = base`, log = the initial no-op -/
+  | init {base s} : MInv base s → MReach cfg base s
+  /-- `_checkCommandsToApply`, leader branch: accepted (any command kind) or refused -/
+  | leader {base s s' cmd cb o br} : MReach cfg base s → leaderDispatch cfg s cmd cb = .ok (s', o, br) →
+      MReach cfg base s'
+  /-- `append_entries` handler (regular branch, chunks included): no-op, append, or rollback + append -/
+  | follower {base s s' src m o} : MReach cfg base s → followerAppend cfg s src m = (s', .ok o) →
+      MsgEff base s m → MReach cfg base s'
+  /-- an entry is applied / committed (`__doApplyCommand`) -/
+  | apply {base s s' e o} : MReach cfg base s → reapplyAtCommit s e = .ok (s', o) → MReach cfg base s'
+  /-- `__tryLogCompaction` captures a dump at `lastApplied` (no change of log or member set; the compaction of
+  the log prefix is outside this model) -/
+  | capture {base s c} : MReach cfg base s → clusterAt s.self s.members s.log s.lastApplied = some c →
+      MReach cfg base s
+  /-- install of a snapshot whose cluster is the fold up to its position over some base `base'` -/
+  | restore {base base' s s' prevE lastE cluster o} : MReach cfg base s →
+      restoreSnapshot s prevE lastE cluster true = .ok (s', o) → Good s.self base' →
+      (∀ x, (x ∈ cluster ∧ s.self ≠ some x) ↔ x ∈ foldConfig s.self base' [prevE, lastE]) →
+      Eff s.self base' [prevE, lastE] → MReach cfg base' s'
+  /-- restart: the node is started with a member list `m0` that contains the effects of a prefix of its journal,
+  the first tick folds the journal -/
+  | restart {base s s' m0 k o} : MReach cfg base s → Good s.self m0 →
+      SetEq m0 (foldConfig s.self base (s.log.take k)) →
+      journalFold true { s with members := m0 } = .ok (s', o) → MReach cfg base s'
+
+/-- **Member set = fold of the log, for every sequence of the modelled operations** (`dynamicMembershipChange`
+on): leader accept / refuse, follower append with conflict rollback, apply / commit, snapshot capture, restore
+from a snapshot whose cluster is the fold up to its position, journal fold at start-up.  The node's member list is
+duplicate-free, does not contain the node, and equals (as a set) the fold of the membership commands of its log
+over the base set of the log's first position. -/
+theorem members_eq_fold {cfg : Conf} (hdyn : cfg.dynMember = true) {base : List Nat} {s : Node}
+    (h : MReach cfg base s) : MInv base s := by
+  induction h with
+  | init h => exact h
+  | leader _ hstep ih => exact members_eq_fold_leader ih hdyn hstep
+  | follower _ hstep hmsg ih => exact followerAppend_minv hdyn ih hmsg hstep
+  | apply _ hstep ih => cases hstep; exact ih
+  | capture _ _ ih => exact ih
+  | @restore base base' s s' prevE lastE cluster o _ hstep hb hcl heff ih =>
+    obtain ⟨hlog, hnd, hmem, hself⟩ := members_eq_fold_restore prevE lastE cluster hstep
+    refine ⟨by rw [hself]; exact hb, ⟨hnd, ?_⟩, ?_, by rw [hself, hlog]; exact heff⟩
+    · intro n hn hin
+      rw [hself] at hn
+      exact ((hmem n).mp hin).2 hn
+    · intro x
+      rw [hself, hlog, hmem x]
+      exact hcl x
+  | @restart base s s' m0 k o _ hg hm hstep ih =>
+    exact journalFold_minv (s := { s with members := m0 }) ih.base_good hg ih.eff hm hstep
 
 end PSO.NodeSend
